@@ -51,7 +51,7 @@ class TreeProfile(session.Profile):
         return header["weights"]
 
     def install_seams(self, world, header):
-        chain_evolve._ivp_budget[0] = 4000
+        chain_evolve._ivp_budget[0] = 500      # tree VMF derivatives are expensive: a smaller deterministic budget bounds the wall time of a run
         return []
 
     def propose(self, world, rnd, weights):
